@@ -227,6 +227,19 @@ var props = map[string]Prop{
 			prog("programs", "./harness/c14", "TestC14Programs", 2, 60, 8, 16),
 		},
 	},
+	"C13": {
+		ID: "C13", Level: "exploration",
+		Rule: "rapid generates a module main -> p1 -> ... (2-4 packages; per package a constant folded into its importers, optionally an embedded file, a C file named by LLGoFiles, build-tag-selected files, init-carrying extra files) and a history of 5-12 steps (edit the constant of main / a dependency / the leaf, edit an embedded file with the same or another length, edit the C file, toggle the build tag, add or remove a source file, revert the previous edit, rewrite a file unchanged, switch -O0/-O2, rebuild unchanged, drop the module's cache entries, and a dedicated edit that keeps size and modification time); after every step the module is rebuilt with the same cache directory and run, and must print what the model computes from the current inputs; at the end two builds from an empty module cache must give byte-identical archive members. A case is one step; non-trivial = the step changes an input of a package whose archive is in the cache.",
+		Assumptions: []string{
+			"every input is printed by the program by construction, so the model's expected output is exact",
+			"-X overrides are not reachable from the llgo command line (only through build.Config.GlobalRewrites) and behaviour-affecting environment variables have no observable effect on these programs: neither is generated",
+			"programs with an embedded file are built at -O0 only (LLVM 14)",
+			"archive member names carry a random temporary suffix and are not compared; member contents are",
+		},
+		Jobs: []Job{
+			prog("histories", "./harness/c13", "TestC13Histories", 1, 30, 8, 16),
+		},
+	},
 	"C15": {
 		ID: "C15", Level: "exploration",
 		Rule: "rapid generates a pool of 8-22 named types in two packages (named basics, structs with tags / unexported / embedded value and pointer fields, generic structs and instances, named interfaces, named composites, a recursive struct; 0-3 methods each on value and pointer receivers incl. String/Error/GoString) plus 4-10 unnamed composites, 1-3 values per type; the generated program walks every type with reflect, exercises the values and formats them with ~40 fmt verb/flag combinations, in one of three modes (full walker / constant MethodByName only / formatting only); gc's output of the same program is the oracle, compared line by line per type. A case is one (type, mode); non-trivial = the type has at least two of {embedded field, embedded pointer, embedded generic instance, pointer-receiver method, value-receiver method, fmt interface method, tag, unexported field, generic instance, recursion, named composite}.",
